@@ -987,23 +987,34 @@ def _stmt_bounds(toks):
         i += 1
     return res
 
+def _split_top(seg, op):
+    parts, cur, d = [], [], 0
+    for t in seg:
+        if t.k == 'punct' and t.t in '([{': d += 1
+        elif t.k == 'punct' and t.t in ')]}': d -= 1
+        if d == 0 and t.k == 'punct' and t.t == op:
+            parts.append(cur); cur = []
+        else:
+            cur.append(t)
+    parts.append(cur)
+    return parts
+
 def r_hoist_throws(ctx, toks):
     may = {c for c, s in ctx.sigs.items() if s.get('throws')}
     if not may:
         return toks
     counter = [0]
     CHECK = ' if (nix_exc) return NIX_RET_DEFAULT;'
+    def has_may(seg):
+        return any(t.k == 'id' and t.t in may and k + 1 < len(seg) and seg[k + 1].t == '(' for k, t in enumerate(seg))
     def find_calls(seg):
-        """indices (in seg) of may-throw calls, innermost-leftmost first, with their close index"""
         calls = []
         for k, t in enumerate(seg):
             if t.k == 'id' and t.t in may and k + 1 < len(seg) and seg[k + 1].t == '(' and (k == 0 or seg[k - 1].t not in ('.', '->')):
                 calls.append((k, match_close(seg, k + 1)))
-        # innermost first: sort by (end) ascending -> a nested call closes before its parent
         calls.sort(key=lambda c: c[1])
         return calls
     def short_circuit_before(seg, k):
-        """is there a &&, ||, ? to the left of position k that governs it (same or outer nesting)?"""
         d = 0
         for j in range(k - 1, -1, -1):
             t = seg[j]
@@ -1013,40 +1024,68 @@ def r_hoist_throws(ctx, toks):
             elif d <= 0 and t.t in ('&&', '||', '?', ':'):
                 return True
         return False
-    out = list(toks)
-    # process statements from the end so that indices stay valid
-    for (a, b, kind, anchor) in sorted(_stmt_bounds(out), key=lambda x: -x[0]):
-        seg = out[a:b]
-        if not any(t.k == 'id' and t.t in may for t in seg):
-            continue
-        if kind == 'for':
-            raise ExtractError('may-throw call in a for header: %r' % render(seg)[:80])
+    def newtmp():
+        counter[0] += 1
+        return '_t%d' % counter[0]
+    def hoist_plain(seg, keep_top):
+        """hoist nested may-throw calls of an expression without governing short-circuit operators.
+        keep_top: the expression may remain a single top-level call (caller adds the check)."""
         pre = []
-        whole_is_call = False
+        top = False
         while True:
             calls = find_calls(seg)
             if not calls: break
             k, e = calls[0]
-            # statement-level call:  f(...)   |  x = f(...)  |  T x = f(...)  |  return f(...)
-            rest_after = seg[e + 1:]
-            before = seg[:k]
-            is_top = not rest_after and (not before or before[-1].t in ('=', 'return')) and kind == 'simple'
-            if is_top and len(calls) == 1:
-                whole_is_call = True
-                break
+            if keep_top and len(calls) == 1 and k == 0 and e == len(seg) - 1:
+                top = True; break
             if short_circuit_before(seg, k):
-                raise ExtractError('may-throw call %s under a short-circuit operator: needs a unit-specific rule' % seg[k].t)
+                raise ExtractError('may-throw call %s under a conditional operator: needs a unit-specific rule' % seg[k].t)
             rty = ctx.sigs[seg[k].t]['ret']
-            call = seg[k:e + 1]
             if rty == 'void':
                 raise ExtractError('void may-throw call nested in an expression')
-            counter[0] += 1
-            tmp = '_t%d' % counter[0]
-            pre.extend(tokenize(' %s %s =' % (rty, tmp))); pre.extend(call); pre.append(P(';', '')); pre.extend(tokenize(CHECK))
+            tmp = newtmp()
+            pre.extend(tokenize(' %s %s =' % (rty, tmp))); pre.extend(seg[k:e + 1]); pre.append(P(';', '')); pre.extend(tokenize(CHECK))
             seg = seg[:k] + [Tok('id', tmp, seg[k].ws)] + seg[e + 1:]
             fire(ctx, 'hoist-maythrow')
+        return pre, seg, top
+    def lower_bool(seg):
+        """boolean expression with may-throw calls under top-level && / ||: sequential evaluation with guards"""
+        if not has_may(seg):
+            return [], seg
+        # strip one pair of enclosing parentheses
+        if seg and seg[0].t == '(' and match_close(seg, 0) == len(seg) - 1:
+            pre, r = lower_bool(seg[1:-1])
+            return pre, [P('(', seg[0].ws)] + r + [P(')', '')]
+        for op, guard in (('||', '!'), ('&&', '')):
+            parts = _split_top(seg, op)
+            if len(parts) > 1:
+                v = newtmp()
+                p0, r0 = lower_bool(parts[0])
+                pre = p0 + tokenize(' bool %s =' % v) + r0 + [P(';', '')]
+                for part in parts[1:]:
+                    pi, ri = lower_bool(part)
+                    pre += tokenize(' if (%s%s) {' % (guard, v)) + pi + tokenize(' %s =' % v) + ri + [P(';', ''), P('}')]
+                fire(ctx, 'hoist-short-circuit')
+                return pre, [Tok('id', v, ' ')]
+        if any(t.t == '?' for t in seg):
+            raise ExtractError('may-throw call under ?: needs a unit-specific rule')
+        # leading '!' is fine: hoist inside
+        pre, r, _ = hoist_plain(seg, False)
+        return pre, r
+    def needs_lower(seg):
+        for op in ('&&', '||'):
+            parts = _split_top(seg, op)
+            if len(parts) > 1 and any(has_may(p) for p in parts[1:]):
+                return True
+        return False
+    out = list(toks)
+    for (a, b, kind, anchor) in sorted(_stmt_bounds(out), key=lambda x: -x[0]):
+        seg = out[a:b]
+        if not has_may(seg):
+            continue
+        if kind == 'for':
+            raise ExtractError('may-throw call in a for header: %r' % render(seg)[:80])
         if kind == 'cond':
-            # placement: the 'if' must start a statement
             prev = out[anchor - 1].t if anchor > 0 else '{'
             if prev == 'else':
                 raise ExtractError("may-throw call in an 'else if' condition: needs a unit-specific rule")
@@ -1054,19 +1093,37 @@ def r_hoist_throws(ctx, toks):
                 raise ExtractError('may-throw call in the condition of an unbraced nested statement')
             if out[anchor].t == 'while':
                 raise ExtractError('may-throw call in a while condition')
-            out[a:b] = seg
+            pre, r = lower_bool(seg)
+            out[a:b] = r
             out[anchor:anchor] = pre
+            continue
+        # simple statement: [return | T x = | x = ] EXPR
+        prev = out[a - 1].t if a > 0 else '{'
+        # find the expression start
+        es = 0
+        if seg and seg[0].t == 'return': es = 1
         else:
-            prev = out[a - 1].t if a > 0 else '{'
-            if pre and prev not in (';', '{', '}', ':'):
-                raise ExtractError('may-throw call in an unbraced nested statement: %r' % render(out[a:b])[:80])
-            tail = []
-            first = seg[0].t if seg else ''
-            if whole_is_call and first != 'return':
+            d = 0
+            for k, t in enumerate(seg):
+                if t.k == 'punct' and t.t in '([{': d += 1
+                elif t.k == 'punct' and t.t in ')]}': d -= 1
+                elif d == 0 and t.t == '=':
+                    es = k + 1; break
+        head, expr = seg[:es], seg[es:]
+        tail = []
+        if needs_lower(expr):
+            pre, r = lower_bool(expr)
+            newseg = head + r
+        else:
+            pre, r, top = hoist_plain(expr, True)
+            newseg = head + r
+            if top and not (head and head[0].t == 'return'):
                 tail = tokenize(CHECK); fire(ctx, 'maythrow-check')
-            out[b + 1:b + 1] = tail          # after the ';'
-            out[a:b] = seg
-            out[a:a] = pre
+        if pre and prev not in (';', '{', '}', ':'):
+            raise ExtractError('may-throw call in an unbraced nested statement: %r' % render(out[a:b])[:80])
+        out[b + 1:b + 1] = tail
+        out[a:b] = newseg
+        out[a:a] = pre
     return out
 
 def r_return_copy(ctx, toks, ret_c):
